@@ -173,6 +173,7 @@ func cmdCheck(args []string) int {
 	only := fs.String("only", "", "restrict to functions whose id contains this")
 	verbose := fs.Bool("v", false, "")
 	noEvidence := fs.Bool("no-evidence", false, "do not write the evidence file")
+	replayDirFlag := fs.String("replaydir", "", "directory for replay files (default <verif>/replays)")
 	fs.Parse(args)
 	if *prop == "" {
 		fmt.Fprintln(os.Stderr, "check: -property required")
@@ -207,6 +208,11 @@ func cmdCheck(args []string) int {
 					claimed = true
 				}
 			}
+			for _, cl := range fc.Preserves {
+				if hasTag(cl.Tags, *prop) {
+					claimed = true
+				}
+			}
 		}
 		if !claimed {
 			continue
@@ -222,6 +228,7 @@ func cmdCheck(args []string) int {
 	var vcs []*FnVC
 	var missing []string
 	guarded := map[string]*Obligation{} // obligation name -> guarded twin (known findings)
+	preSolved := map[*Obligation]bool{}
 	for _, id := range ids {
 		fn := p.fnByID[id]
 		if fn == nil {
@@ -229,8 +236,25 @@ func cmdCheck(args []string) int {
 			continue
 		}
 		vc := newFnVC(p, fn, p.cs.Funcs[id], id)
-		vc.generate()
+		scanOnly := !hasTag(vc.fc.Tags, *prop)
+		for _, cl := range vc.fc.Ensures {
+			if hasTag(cl.Tags, *prop) {
+				scanOnly = false
+			}
+		}
+		if !scanOnly {
+			vc.generate()
+		}
 		vcs = append(vcs, vc)
+		for _, o := range vc.preservesObligations() {
+			if hasTag(o.Tags, *prop) {
+				all = append(all, o)
+				preSolved[o] = true
+			}
+		}
+		if scanOnly {
+			continue
+		}
 		if vc.failed != "" {
 			// the whole function is outside the subset: one failed obligation stands for it
 			o := &Obligation{Name: vc.shortName() + "/subset", Class: "subset", Func: vc.shortName(), Goal: "false", Tags: vc.fnTags(), Expect: "unsat", vc: vc}
@@ -262,7 +286,11 @@ func cmdCheck(args []string) int {
 		}
 	}
 	var solveList []*Obligation
-	solveList = append(solveList, all...)
+	for _, o := range all {
+		if !preSolved[o] {
+			solveList = append(solveList, o)
+		}
+	}
 	for _, o := range guarded {
 		solveList = append(solveList, o)
 	}
@@ -273,7 +301,7 @@ func cmdCheck(args []string) int {
 	if *tier == "thorough" {
 		var again []*Obligation
 		for _, o := range all {
-			if o.Result != nil && o.Result.Status == o.Expect {
+			if o.Result != nil && o.Result.Status == o.Expect && !preSolved[o] {
 				c := *o
 				again = append(again, &c)
 			}
@@ -294,6 +322,12 @@ func cmdCheck(args []string) int {
 	bySolver := map[string]int{}
 	var solverMs int64
 	replayDir := filepath.Join(*verif, "replays", *prop)
+	if *replayDirFlag != "" {
+		replayDir = filepath.Join(*replayDirFlag, *prop)
+	}
+	if *only == "" {
+		os.RemoveAll(replayDir)
+	}
 	var knownLines []string
 	trusted := map[string]bool{}
 	assumptions := map[string]bool{}
